@@ -1,6 +1,7 @@
 from typing import Any, SupportsFloat
 from sympy import Expr, S
 from sympy.physics.units import Quantity as SymQuantity
+from sympy.physics.units.prefixes import Prefix
 
 from .dimensions import assert_equivalent_dimension, dimension_to_si_unit
 from .symbols.quantities import Quantity
@@ -46,6 +47,10 @@ def evaluate_expression(expr: Expr, evaluate: bool = False, **kwargs: Any) -> Ex
         if evaluate:
             si_value = si_value.evalf(**kwargs)
         expr = expr.subs(qty, si_value)
+
+    # unit prefixes, eg 'units.kilo', are not quantities but have scale factor too
+    for prefix in expr.atoms(Prefix):
+        expr = expr.subs(prefix, prefix.scale_factor)
 
     return expr
 
